@@ -172,8 +172,9 @@ func (r *request) buildHTTP(mediaType, basePath string, producers map[string]run
 						// Need to read the data so that we can detect the content type
 						const contentTypeBufferSize = 512
 						buf := make([]byte, contentTypeBufferSize)
-						size, err := fi.Read(buf)
-						if err != nil && err != io.EOF {
+						// (a reader may deliver fewer bytes than asked for: fill the window before sniffing)
+						size, err := io.ReadFull(fi, buf)
+						if err != nil && err != io.EOF && err != io.ErrUnexpectedEOF {
 							logClose(err, pw)
 							return
 						}
